@@ -464,15 +464,91 @@ ALLOWED_CALLS = {'len', 'numpy.where', 'numpy.count_nonzero', 'numpy.nonzero', '
                  'numpy.zeros_like', 'numpy.copy', 'numpy.asarray', 'numpy.ascontiguousarray'}
 
 
+def _local_codes(fn, m, seed):
+    codes = set(seed)
+    changed = True
+    while changed:
+        changed = False
+        for n in own_nodes(fn.node):
+            new = set()
+            if isinstance(n, ast.Assign):
+                if len(n.targets) == 1 and isinstance(n.targets[0], ast.Name) and _is_code(n.value, codes, m):
+                    new.add(n.targets[0].id)
+                if len(n.targets) == 1 and isinstance(n.targets[0], ast.Tuple) and isinstance(n.value, ast.Call):
+                    d = m.dotted(n.value.func) or ''
+                    if d.endswith('.numba_unique') and n.value.args and _is_code(n.value.args[0], codes, m) and isinstance(n.targets[0].elts[0], ast.Name):
+                        new.add(n.targets[0].elts[0].id)
+                    if d.endswith('.stratified_subsampling'):
+                        new |= {e.id for e in n.targets[0].elts if isinstance(e, ast.Name)}
+                if len(n.targets) == 1 and isinstance(n.targets[0], ast.Subscript) and isinstance(n.targets[0].value, ast.Name) and _is_code(n.value, codes, m):
+                    new.add(n.targets[0].value.id)
+            elif isinstance(n, ast.For):
+                it = n.iter
+                if _is_code(it, codes, m) and isinstance(n.target, ast.Name):
+                    new.add(n.target.id)
+                if isinstance(it, ast.Call) and isinstance(it.func, ast.Name) and it.func.id == 'enumerate' and it.args and _is_code(it.args[0], codes, m) and isinstance(n.target, ast.Tuple) and isinstance(n.target.elts[1], ast.Name):
+                    new.add(n.target.elts[1].id)
+                # for v, n in zip(values, counts): the element of a code array is a code
+                if isinstance(it, ast.Call) and isinstance(it.func, ast.Name) and it.func.id == 'zip' and isinstance(n.target, ast.Tuple) and len(n.target.elts) == len(it.args):
+                    for a_, t_ in zip(it.args, n.target.elts):
+                        if _is_code(a_, codes, m) and isinstance(t_, ast.Name):
+                            new.add(t_.id)
+            if new - codes:
+                codes |= new
+                changed = True
+    return codes
+
+
+def _code_params(repo, m):
+    """which parameters of the kernel functions carry category codes: the two vectors of the entry point, and whatever the call sites inside the
+    module hand on (by position or by keyword) - so that a changed signature does not shift the table"""
+    out = {}
+    entry = m.funcs.get('mutual_info_estimator_numba')
+    if entry is not None and len(entry.params) >= 2:
+        out['mutual_info_estimator_numba'] = set(entry.params[:2])
+    if 'numba_unique' in m.funcs and m.funcs['numba_unique'].params:
+        out['numba_unique'] = {m.funcs['numba_unique'].params[0]}
+    called = set()
+    for _ in range(6):
+        grew = False
+        for fname in list(out) + [q for q in called if q not in out]:
+            out.setdefault(fname, set())
+            fn = m.funcs.get(fname)
+            if fn is None:
+                continue
+            codes = _local_codes(fn, m, out[fname])
+            for c in calls(fn):
+                d = m.dotted(c.func) or ''
+                callee = m.funcs.get(d.split('.')[-1]) if d.startswith(m.name + '.') else None
+                if callee is None:
+                    continue
+                called.add(callee.qualname)
+                ps = callee.params
+                hit = {ps[i] for i, a_ in enumerate(c.args) if i < len(ps) and _is_code(a_, codes, m)} | {k.arg for k in c.keywords if k.arg in ps and _is_code(k.value, codes, m)}
+                if hit - out.get(callee.qualname, set()):
+                    out.setdefault(callee.qualname, set()).update(hit)
+                    grew = True
+        if not grew:
+            break
+    # functions no call site reaches from the entry point keep the confirmed positions (when the signature still has them)
+    for fname, idxs in CODE_PARAMS.items():
+        if fname not in out and fname not in called and fname in m.funcs:
+            out[fname] = {m.funcs[fname].params[i] for i in idxs if i < len(m.funcs[fname].params)}
+    return out
+
+
 def code_uses(repo, chk, oid):
     """Inside the kernel, code vectors and value arrays flow only into ==/!= against codes, the histogram, and positional
     operations.  Arithmetic, ordering comparisons or hashing of a code is a violation: an injective relabelling changes it."""
     m = repo.mod(MI)
     n_uses = 0
-    for fname, idxs in CODE_PARAMS.items():
+    code_params = _code_params(repo, m)
+    for fname in list(CODE_PARAMS) + [q for q in code_params if q not in CODE_PARAMS]:
+        if fname not in m.funcs:
+            continue
         fn = repo.func(MI, fname)
         par = parents(fn.node)
-        codes = {fn.params[i] for i in idxs if i < len(fn.params)}
+        codes = set(code_params.get(fname, set()))
         # propagate
         changed = True
         while changed:
@@ -532,6 +608,15 @@ def code_uses(repo, chk, oid):
                         # <largest code> + 1 as the size of a table indexed by the code, or a code used as a position: an order embedding, not a use of the numeric value
                         continue
                     chk.bad(oid, 'use-restriction', site, ast.unparse(p)[:100], f'arithmetic on category codes ({ast.unparse(p)[:60]}): an injective relabelling of the codes changes its outcome')
+                elif isinstance(p, ast.Compare) and all(isinstance(o, (ast.Eq, ast.NotEq)) for o in p.ops):
+                    # codes are compared with codes: a loop POSITION (for i in range(..)) is not a code, although both are integers
+                    range_vars = {lp.target.id for lp in own_nodes(fn.node) if isinstance(lp, ast.For) and isinstance(lp.target, ast.Name) and isinstance(lp.iter, ast.Call)
+                                  and (m.dotted(lp.iter.func) or ast.unparse(lp.iter.func)) in ('range', 'numba.prange', 'prange')}
+                    others = [x for x in [p.left] + list(p.comparators) if x is not top and x is not n]
+                    for o_ in others:
+                        if isinstance(o_, ast.Name) and o_.id in range_vars and o_.id not in codes:
+                            chk.bad(oid, 'use-restriction', site, ast.unparse(p)[:100], f'category codes are compared with the loop position `{o_.id}` (an index into the table of values, not a value): the comparison is right only when the codes '
+                                    'happen to be 0..k-1 in order, so relabelling the codes changes the counts')
                 elif isinstance(p, ast.Compare):
                     if any(isinstance(o, (ast.Lt, ast.LtE, ast.Gt, ast.GtE)) for o in p.ops):
                         # a bounds check against the size of a table that is indexed by the code (code < len(table) / code < <largest code> + 1):
@@ -549,6 +634,10 @@ def code_uses(repo, chk, oid):
                                 return len(ds) == 1 and (is_size(ds[0].value, depth + 1) or (isinstance(ds[0].value, ast.BinOp) and _sizes_or_indexes(ds[0].value, par, m, depth + 1)))
                             return False
                         if len(others) == 1 and is_size(others[0]):
+                            continue
+                        # a sign test (code >= 0, code < 0): a check that the value is in the domain of codes at all (non-negative integers by
+                        # the statement), the same under every relabelling within that domain
+                        if len(others) == 1 and isinstance(others[0], ast.Constant) and others[0].value == 0 and not isinstance(others[0].value, bool):
                             continue
                         chk.bad(oid, 'use-restriction', site, ast.unparse(p)[:100], 'ordering comparison on category codes: an order-reversing relabelling changes its outcome')
                 elif isinstance(p, ast.Call):
@@ -778,3 +867,38 @@ def compile_options(repo, chk, oid):
                 elif ty in NARROW_NUMBA:
                     chk.unsure(oid, 'R8', fn.site(), f'@njit(locals={{{var!r}: {ast.unparse(v)}}})', f'the local {var} of {name} is pinned to {ty}; whether a value it has to hold can exceed that type is not decided')
     chk.ok(oid, 'R8', 'outrank/algorithms/feature_ranking/ranking_mi_numba.py', '@njit(...) options of the kernels', f'{n} kernels: no accumulator is re-typed to a narrower type', inspected=n)
+
+
+NARROW_INT_TEXT = ('int8', 'int16', 'uint8', 'uint16')
+
+
+def narrow_kernel_storage(repo, chk, oid):
+    """Every integer the kernel stores - a code, a slot number, a row position, a count - can be as large as the number of rows / distinct codes
+    (up to 2^20 codes, 10^6 rows by the statement).  An array allocated with an 8- or 16-bit integer dtype, or a compiled signature that declares
+    one, wraps those values silently: two classes share a slot, a count starts again from 0."""
+    m = repo.mod(MI)
+    n = 0
+    for q, fn in m.funcs.items():
+        for c in calls(fn):
+            d = m.dotted(c.func) or ''
+            if d in ('numpy.zeros', 'numpy.empty', 'numpy.full', 'numpy.ones', 'numpy.zeros_like', 'numpy.empty_like', 'numpy.arange', 'numpy.array', 'numpy.asarray'):
+                dt = next((k.value for k in c.keywords if k.arg == 'dtype'), None)
+                if dt is None:
+                    continue
+                n += 1
+                txt = ast.unparse(dt).split('.')[-1].strip('\'"')
+                if txt in NARROW_INT_TEXT:
+                    chk.bad(oid, 'R8', fn.site(c), ast.unparse(c)[:100], f'the kernel allocates an array of {txt}: slot numbers, positions and counts above {2 ** (8 if "8" in txt else 16) - 1} wrap around in it '
+                            '(with more than that many distinct codes / rows two classes share a slot or a count restarts), so the score is no longer the plug-in quantity')
+        for dname, kw in fn.decorator_info():
+            for d_ in fn.node.decorator_list:
+                if isinstance(d_, ast.Call):
+                    for a_ in d_.args:
+                        if isinstance(a_, ast.Constant) and isinstance(a_.value, str):
+                            n += 1
+                            import re as _re
+                            hit = _re.search(r'\bu?int(8|16)\b', a_.value)
+                            if hit:
+                                chk.bad(oid, 'R8', fn.site(), a_.value[:100], f'the compiled signature of {q} declares {hit.group(0)} storage: values above its range (codes, slots, counts) wrap around')
+            break
+    chk.ok(oid, 'R8', m.relpath, 'integer dtypes of the kernel arrays and signatures', f'{n} allocation / signature site(s): none narrower than 32 bits', inspected=max(1, n))
